@@ -1,7 +1,10 @@
 """gen_initmem — regenerate lean/W2c2Verif/Gen/InitMem.lean from /repo/w2c2/c.c and /repo/w2c2/w2c2_base.h.
 
 What `<module>InitMemories` contains is decided by three loops of c.c and one header function; all four are extracted
-as DATA (any statement, condition, literal or argument outside the shapes below raises ExtractFail = broken tie):
+as DATA (any statement, condition, literal or argument outside the shapes below raises ExtractFail = broken tie).  The c.c
+functions are read on the NORMAL FORM of tools/extract/cnorm.py, so the facts do not depend on spelling: local names are free,
+single-assignment temporaries are substituted, `if (c) continue; S` ≡ `if (!c) { S }`, `if (c) A else B` ≡ `if (!c) B else A`,
+switch ≡ if-chain (a guard on the data segment mode is the SET of modes on the path), for ≡ while, `i++` ≡ `i += 1`, literals by value:
 
   * `wasmCWriteInitMemories`: the per-memory loop (`memLoop`) and the per-data-segment loop (`segLoop`), each
     flattened IN SOURCE ORDER into a list of guarded leaves.  A leaf is `emit <piece>` (one chunk of emitted text:
@@ -46,146 +49,6 @@ def nows(s):
     return re.sub(r"\s+", "", s)
 
 
-# ------------------------------------------------------------------------------- a small statement-tree parser
-def _skip_ws(t, k):
-    while k < len(t) and t[k].isspace():
-        k += 1
-    return k
-
-
-def _match(t, k, open_c, close_c, where):
-    """index just after the bracket matching t[k] (strings / char literals skipped)"""
-    assert t[k] == open_c
-    depth = 0
-    n = len(t)
-    while k < n:
-        c = t[k]
-        if c == '"' or c == "'":
-            q = c
-            k += 1
-            while k < n and t[k] != q:
-                if t[k] == "\\":
-                    k += 1
-                k += 1
-        elif c == open_c:
-            depth += 1
-        elif c == close_c:
-            depth -= 1
-            if depth == 0:
-                return k + 1
-        k += 1
-    raise ExtractFail(where, "unbalanced %s%s" % (open_c, close_c))
-
-
-def parse_stmts(t, where):
-    """statement list -> [('if', cond, then, else|None) | ('switch', expr, [([labels], stmts)]) | ('for', head, body)
-    | ('block', stmts) | ('stmt', text)]"""
-    out = []
-    k = 0
-    n = len(t)
-    while True:
-        k = _skip_ws(t, k)
-        if k >= n:
-            return out
-        st, k = parse_stmt(t, k, where)
-        out.append(st)
-
-
-def parse_stmt(t, k, where):
-    k = _skip_ws(t, k)
-    m = re.match(r"(if|switch|for|while|do|else|case|default|goto)\b", t[k:])
-    kw = m.group(1) if m else None
-    if t[k] == "{":
-        e = _match(t, k, "{", "}", where)
-        return ("block", parse_stmts(t[k + 1:e - 1], where)), e
-    if kw in ("if", "switch", "for"):
-        p = _skip_ws(t, k + len(kw))
-        if t[p] != "(":
-            raise ExtractFail(where, "`%s` without parenthesis" % kw)
-        pe = _match(t, p, "(", ")", where)
-        head = t[p + 1:pe - 1]
-        if kw == "switch":
-            b = _skip_ws(t, pe)
-            if t[b] != "{":
-                raise ExtractFail(where, "switch without block")
-            be = _match(t, b, "{", "}", where)
-            return ("switch", head, parse_cases(t[b + 1:be - 1], where)), be
-        body, e = parse_stmt(t, pe, where)
-        if kw == "for":
-            return ("for", head, body), e
-        q = _skip_ws(t, e)
-        if re.match(r"else\b", t[q:]):
-            eb, e2 = parse_stmt(t, q + 4, where)
-            return ("if", head, body, eb), e2
-        return ("if", head, body, None), e
-    if kw is not None:
-        raise ExtractFail(where, "statement keyword `%s` is outside the accepted shapes" % kw)
-    # plain statement up to `;` at depth 0
-    j = k
-    n = len(t)
-    depth = 0
-    while j < n:
-        c = t[j]
-        if c == '"' or c == "'":
-            q = c
-            j += 1
-            while j < n and t[j] != q:
-                if t[j] == "\\":
-                    j += 1
-                j += 1
-        elif c in "({[":
-            depth += 1
-        elif c in ")}]":
-            depth -= 1
-        elif c == ";" and depth == 0:
-            return ("stmt", t[k:j].strip()), j + 1
-        j += 1
-    # `MUST (…)` macro calls have no semicolon: a statement that is exactly one call
-    txt = t[k:].strip()
-    raise ExtractFail(where, "statement without `;`: %s" % txt[:60])
-
-
-def parse_cases(t, where):
-    """[([labels], stmts)]; every group must end in `break;` (fall-through between non-empty groups is rejected)"""
-    groups = []
-    k = 0
-    n = len(t)
-    labels = []
-    while True:
-        k = _skip_ws(t, k)
-        if k >= n:
-            break
-        m = re.match(r"case\s+(\w+)\s*:", t[k:])
-        if m:
-            labels.append(m.group(1))
-            k += m.end()
-            continue
-        m = re.match(r"default\s*:", t[k:])
-        if m:
-            labels.append("default")
-            k += m.end()
-            continue
-        if not labels:
-            raise ExtractFail(where, "statement before the first case label")
-        body = []
-        while True:
-            k = _skip_ws(t, k)
-            if k >= n or re.match(r"(case\b|default\s*:)", t[k:]):
-                break
-            st, k = parse_stmt(t, k, where)
-            body.append(st)
-        groups.append((labels, body))
-        labels = []
-    if labels:
-        raise ExtractFail(where, "case labels without statements")
-    return groups
-
-
-def must_unwrap(text):
-    """`MUST (call)` statements carry no semicolon in the source; make them ordinary statements"""
-    return re.sub(r"\bMUST\s*\(((?:[^()]|\([^()]*\))*)\)(?!\s*;)", r"MUST(\1);", text)
-
-
 # ------------------------------------------------------------------------------- leaves
 def c_unescape(s):
     return s.replace("\\n", "\n").replace("\\t", "\t").replace('\\"', '"').replace("\\\\", "\\")
@@ -198,167 +61,6 @@ def literal_pieces(lit, where):
     if t not in KW_OF:
         raise ExtractFail(where, "emitted literal `%s` is not a known chunk of InitMemories" % lit)
     return [".emit (.kw .%s)" % KW_OF[t]]
-
-
-FMT_ARGS = {("%llu", "byteOffset"): "byteOffset", ("%u", "memory.min"): "memMin", ("%u", "memory.max"): "memMax",
-            ("%lu", "(unsignedlong)dataSegmentLength"): "segLen", ("%lu", "(unsignedlong)dataSegment.bytes.length"): "segLen"}
-
-
-def split_args(s):
-    out, depth, cur = [], 0, ""
-    k = 0
-    while k < len(s):
-        c = s[k]
-        if c == '"':
-            j = k + 1
-            while s[j] != '"':
-                if s[j] == "\\":
-                    j += 1
-                j += 1
-            cur += s[k:j + 1]
-            k = j + 1
-            continue
-        if c in "([":
-            depth += 1
-        elif c in ")]":
-            depth -= 1
-        if c == "," and depth == 0:
-            out.append(cur.strip())
-            cur = ""
-        else:
-            cur += c
-        k += 1
-    if cur.strip():
-        out.append(cur.strip())
-    return out
-
-
-def leaf(text, where, aliases):
-    """one plain statement of a loop body -> list of leaf terms (strings of Lean `Leaf`), or 'break'"""
-    t = nows(text)
-    if t == "break":
-        return "break"
-    if t in ("fputs(indentation,file)", "MUST(stringBuilderReset(&stringBuilder))"):
-        return []
-    m = re.fullmatch(r'fputs\s*\(\s*"((?:[^"\\]|\\.)*)"\s*,\s*file\s*\)', text, re.S)
-    if m:
-        return literal_pieces(m.group(1), where)
-    m = re.fullmatch(r"fputc\s*\(\s*'((?:[^'\\]|\\.)*)'\s*,\s*file\s*\)", text, re.S)
-    if m:
-        return literal_pieces(m.group(1), where)
-    m = re.fullmatch(r"fprintf\s*\((.*)\)", text, re.S)
-    if m:
-        args = split_args(m.group(1))
-        if len(args) < 2 or nows(args[0]) != "file" or not re.fullmatch(r'"(?:[^"\\]|\\.)*"', args[1]):
-            raise ExtractFail(where, "fprintf of an unexpected shape: %s" % text[:60])
-        fmt = args[1][1:-1]
-        rest = args[2:]
-        out = []
-        pos = 0
-        for sm in re.finditer(r"%(llu|lu|u|s|d|x)", fmt):
-            out += literal_pieces(fmt[pos:sm.start()], where)
-            pos = sm.end()
-            if not rest:
-                raise ExtractFail(where, "fprintf: more conversions than arguments")
-            a = nows(rest.pop(0))
-            key = (sm.group(0), a)
-            if key not in FMT_ARGS:
-                raise ExtractFail(where, "fprintf conversion `%s` of `%s` is not a known item of InitMemories" % key)
-            out.append(".emit .%s" % FMT_ARGS[key])
-        out += literal_pieces(fmt[pos:], where)
-        if rest:
-            raise ExtractFail(where, "fprintf: more arguments than conversions")
-        return out
-    if t == "wasmCWriteFileMemoryUse(file,module,moduleMemoryIndex,NULL,true)":
-        return [".emit .memRef"]
-    if t == 'wasmCWriteFileMemoryUse(file,module,moduleMemoryIndex,"parent",true)':
-        return [".emit .memRefParent"]
-    if t == "wasmCWriteFileMemoryUse(file,module,dataSegment.memoryIndex,NULL,false)":
-        return [".emit .segMemUse"]
-    if t == "wasmCWriteFileDataSegmentName(file,dataSegmentIndex)":
-        return [".emit .segName"]
-    if t == "MUST(wasmCWriteConstantExpr(&stringBuilder,module,code))":
-        if aliases.get("code") != "dataSegment.offset":
-            raise ExtractFail(where, "`code` is not the segment's offset expression")
-        return ["%pending-offset"]
-    if t == "fputs(stringBuilder.string,file)":
-        return ["%flush-offset"]
-    if t in ("byteOffset+=dataSegment.bytes.length", "byteOffset+=dataSegmentLength"):
-        if t.endswith("dataSegmentLength") and aliases.get("dataSegmentLength") != "dataSegment.bytes.length":
-            raise ExtractFail(where, "`dataSegmentLength` is not the segment's length")
-        return [".advance"]
-    raise ExtractFail(where, "statement outside the accepted shapes of the emitter loops: %s" % text[:80])
-
-
-DECLS = {
-    "constWasmMemorymemory=module->memories.memories[memoryIndex]": None,
-    "U32moduleMemoryIndex=assertSizeU32(memoryImportCount)+memoryIndex": None,
-    "constWasmDataSegmentdataSegment=module->dataSegments.dataSegments[dataSegmentIndex]": None,
-    "constsize_tdataSegmentLength=dataSegment.bytes.length": ("dataSegmentLength", "dataSegment.bytes.length"),
-    "constBuffercode=dataSegment.offset": ("code", "dataSegment.offset"),
-}
-
-
-def flatten(stmts, guards, where, aliases, out):
-    """appends (guards, leaf) pairs in source order; returns True when the list ended in `break`"""
-    for st in stmts:
-        k = st[0]
-        if k == "block":
-            if flatten(st[1], guards, where, aliases, out):
-                return True
-        elif k == "stmt":
-            t = nows(st[1])
-            if t in DECLS:
-                if DECLS[t]:
-                    aliases[DECLS[t][0]] = DECLS[t][1]
-                continue
-            lv = leaf(st[1], where, aliases)
-            if lv == "break":
-                return True
-            for x in lv:
-                out.append((list(guards), x))
-        elif k == "if":
-            cond = nows(st[1])
-            if cond == "pretty":
-                a, b = [], []
-                if flatten([st[2]], [], where, aliases, a) or (st[3] is not None and flatten([st[3]], [], where, aliases, b)):
-                    raise ExtractFail(where, "conditional `break`")
-                if st[3] is not None:
-                    if a != b:
-                        raise ExtractFail(where, "`if (pretty)` branches emit different items: %r vs %r" % (a, b))
-                    for g, x in a:
-                        out.append((list(guards) + g, x))
-                elif a:
-                    raise ExtractFail(where, "`if (pretty)` without else emits more than indentation: %r" % (a,))
-                continue
-            pos, neg = "true", "false"
-            if cond.startswith("!") and cond[1:] in CONDS:
-                cond, pos, neg = cond[1:], "false", "true"
-            if cond not in CONDS:
-                raise ExtractFail(where, "condition `%s` is not a known module-shape test" % st[1].strip())
-            if flatten([st[2]], guards + [".%s %s" % (CONDS[cond], pos)], where, aliases, out) or \
-                    (st[3] is not None and flatten([st[3]], guards + [".%s %s" % (CONDS[cond], neg)], where, aliases, out)):
-                raise ExtractFail(where, "conditional `break`")
-        elif k == "switch":
-            if nows(st[1]) != "dataSegmentMode":
-                raise ExtractFail(where, "switch on `%s`" % st[1].strip())
-            seen = []
-            for labels, body in st[2]:
-                for lb in labels:
-                    if lb not in MODE_OF:
-                        raise ExtractFail(where, "case label `%s` is not a data segment mode" % lb)
-                    if lb in seen:
-                        raise ExtractFail(where, "case label `%s` twice" % lb)
-                    seen.append(lb)
-                g = ".modeIn [%s]" % ", ".join("." + MODE_OF[lb] for lb in labels)
-                sub = []
-                ended = flatten(body, guards + [g], where, aliases, sub)
-                if not ended:
-                    raise ExtractFail(where, "case group %r does not end in break (fall-through)" % (labels,))
-                out.extend(sub)
-        else:
-            raise ExtractFail(where, "`%s` statement inside an emitter loop" % k)
-    return False
 
 
 def fuse_offset(leaves, where):
@@ -385,149 +87,308 @@ def fuse_offset(leaves, where):
     return out
 
 
-def find_for(stmts, head, where, what):
-    """the unique `for (head)` among stmts (searching bare blocks); returns (body stmts, statements before it in its block)"""
-    hits = []
+# ------------------------------------------------------------------------------- wasmCWriteInitMemories on the normal form (cnorm)
+N_MEM = "module->memories.memories[$i0]"
+N_SEG = "module->dataSegments.dataSegments[$i0]"
+N_MIDX = ("(assertSizeU32(module->memoryImports.length)+$i0)", "assertSizeU32(module->memoryImports.length)+$i0",
+          "($i0+assertSizeU32(module->memoryImports.length))", "$i0+assertSizeU32(module->memoryImports.length)")
+N_CONDS = {N_MEM + ".shared": ("memShared", "mem"), N_SEG + ".passive": ("segPassive", "seg"), N_SEG + ".offset.data": ("segHasOffset", "seg")}
+ALL_MODES = [m for _, m in MODES]
 
-    def walk(lst):
-        for n, st in enumerate(lst):
-            if st[0] == "for" and nows(st[1]) == head:
-                hits.append((st[2], lst[:n], lst[n + 1:]))
-            elif st[0] == "block":
-                walk(st[1])
-    walk(stmts)
-    if len(hits) != 1:
-        raise ExtractFail(where, "%s: expected exactly one `for (%s)`, found %d" % (what, head, len(hits)))
-    body, before, after = hits[0]
-    return (body[1] if body[0] == "block" else [body]), before, after
+
+def n_mode_set(c, where):
+    """condition on dataSegmentMode -> set of modes it selects, None if the condition is about something else"""
+    if isinstance(c, tuple) and c[0] == "or":
+        sets = [n_mode_set(x, where) if p else None for x, p in c[1]]
+        if any(x is None for x in sets):
+            if all(x is None for x in sets):
+                return None
+            raise ExtractFail(where, "condition mixes the data segment mode with something else: %r" % (c,))
+        return set().union(*sets)
+    if isinstance(c, str):
+        m = re.fullmatch(r"dataSegmentMode==(\w+)", c) or re.fullmatch(r"(\w+)==dataSegmentMode", c)
+        if m:
+            if m.group(1) not in MODE_OF:
+                raise ExtractFail(where, "case label `%s` is not a data segment mode" % m.group(1))
+            return {MODE_OF[m.group(1)]}
+    return None
+
+
+def n_leaf(text, where, loop, sb, bo):
+    """one `do` statement (canonical text) of the memory loop ('mem') / data segment loop ('seg') -> leaf terms"""
+    if text in ("fputs(indentation,file)", "MUST(stringBuilderReset(&%s))" % sb):
+        return []
+    m = re.fullmatch(r'fputs\("((?:[^"\\]|\\.)*)",file\)', text, re.S)
+    if m:
+        return literal_pieces(m.group(1), where)
+    m = re.fullmatch(r"fputc\((\d+),file\)", text)
+    if m:
+        return literal_pieces(chr(int(m.group(1))), where)
+    m = re.fullmatch(r"fprintf\((.*)\)", text, re.S)
+    if m:
+        import cnorm
+        args = [x.strip() for x in cnorm._split_top(m.group(1), ",")]
+        if len(args) < 2 or args[0] != "file" or not re.fullmatch(r'"(?:[^"\\]|\\.)*"', args[1], re.S):
+            raise ExtractFail(where, "fprintf of an unexpected shape: %s" % text[:60])
+        fmt = args[1][1:-1]
+        rest = args[2:]
+        table = {("%llu", bo): "byteOffset", ("%u", N_MEM + ".min"): "memMin", ("%u", N_MEM + ".max"): "memMax",
+                 ("%lu", "(unsigned long)" + N_SEG + ".bytes.length"): "segLen"}
+        out = []
+        pos = 0
+        for sm in re.finditer(r"%(llu|lu|u|s|d|x)", fmt):
+            out += literal_pieces(fmt[pos:sm.start()], where)
+            pos = sm.end()
+            if not rest:
+                raise ExtractFail(where, "fprintf: more conversions than arguments")
+            a = rest.pop(0)
+            key = (sm.group(0), a)
+            if key not in table or (table[key] in ("memMin", "memMax")) != (loop == "mem"):
+                raise ExtractFail(where, "fprintf conversion `%s` of `%s` is not a known item of InitMemories" % key)
+            out.append(".emit .%s" % table[key])
+        out += literal_pieces(fmt[pos:], where)
+        if rest:
+            raise ExtractFail(where, "fprintf: more arguments than conversions")
+        return out
+    if loop == "mem":
+        for mi in N_MIDX:
+            if text == "wasmCWriteFileMemoryUse(file,module,%s,NULL,true)" % mi:
+                return [".emit .memRef"]
+            if text == 'wasmCWriteFileMemoryUse(file,module,%s,"parent",true)' % mi:
+                return [".emit .memRefParent"]
+    if loop == "seg":
+        if text == "wasmCWriteFileMemoryUse(file,module,%s.memoryIndex,NULL,false)" % N_SEG:
+            return [".emit .segMemUse"]
+        if text == "wasmCWriteFileDataSegmentName(file,$i0)":
+            return [".emit .segName"]
+        if text == "MUST(wasmCWriteConstantExpr(&%s,module,%s.offset))" % (sb, N_SEG):
+            return ["%pending-offset"]
+        if text == "fputs(%s.string,file)" % sb:
+            return ["%flush-offset"]
+        if bo is not None and text == "%s+=%s.bytes.length" % (bo, N_SEG):
+            return [".advance"]
+    raise ExtractFail(where, "statement outside the accepted shapes of the emitter loops: %s" % text[:90])
+
+
+def n_guards(path):
+    """guard path -> Lean guard terms; consecutive restrictions of the mode are one `.modeIn`"""
+    out = []
+    for g in path:
+        if g[0] == "mode":
+            if out and out[-1][0] == "mode":
+                out[-1] = ("mode", out[-1][1] & g[1])
+            else:
+                out.append(("mode", set(g[1])))
+        else:
+            out.append(g)
+    terms = []
+    for g in out:
+        if g[0] == "mode":
+            terms.append(".modeIn [%s]" % ", ".join("." + m for m in ALL_MODES_ORDER(g[1])))
+        else:
+            terms.append(".%s %s" % (g[1], "true" if g[2] else "false"))
+    return terms
+
+
+def ALL_MODES_ORDER(ms):
+    order = ["gnuld", "sectcreate1", "sectcreate2", "arrays"]          # the order the switch lists them; a set has no order of its own
+    return [m for m in order if m in ms]
+
+
+def n_flatten(nodes, path, modes, where, loop, sb, bo, out):
+    for nd in nodes:
+        if nd[0] == "do":
+            for x in n_leaf(nd[1], where, loop, sb, bo):
+                out.append((n_guards(path), x))
+        elif nd[0] == "if":
+            c = nd[1]
+            if c == "pretty":
+                a, b = [], []
+                n_flatten(nd[2], [], modes, where, loop, sb, bo, a)
+                n_flatten(nd[3], [], modes, where, loop, sb, bo, b)
+                if nd[3]:
+                    if a != b:
+                        raise ExtractFail(where, "`if (pretty)` branches emit different items: %r vs %r" % (a, b))
+                    for g, x in a:
+                        out.append((n_guards(path) + g, x))
+                elif a:
+                    raise ExtractFail(where, "`if (pretty)` without else emits more than indentation: %r" % (a,))
+                continue
+            ms = n_mode_set(c, where)
+            if ms is not None:
+                n_flatten(nd[2], path + [("mode", modes & ms)], modes & ms, where, loop, sb, bo, out)
+                n_flatten(nd[3], path + [("mode", modes - ms)], modes - ms, where, loop, sb, bo, out)
+                continue
+            if not isinstance(c, str) or c not in N_CONDS or N_CONDS[c][1] != loop:
+                raise ExtractFail(where, "condition `%s` is not a known module-shape test" % (c,))
+            n_flatten(nd[2], path + [("cond", N_CONDS[c][0], True)], modes, where, loop, sb, bo, out)
+            n_flatten(nd[3], path + [("cond", N_CONDS[c][0], False)], modes, where, loop, sb, bo, out)
+        else:
+            raise ExtractFail(where, "`%s` statement inside an emitter loop" % nd[0])
 
 
 def init_memories_loops(src):
+    import cnorm
     body, line = function_body(src, "wasmCWriteInitMemories", C)
     where = "%s:%d" % (C, line)
-    top = parse_stmts(must_unwrap(body), where)
-    ifs = [s for s in top if s[0] == "if"]
-    if len(ifs) != 1 or nows(ifs[0][1]) != "memoryCount>0||module->dataSegments.count>0" or ifs[0][3] is not None:
-        raise ExtractFail(where, "outer guard of the InitMemories definition changed")
-    if "constU32memoryCount=module->memories.count" not in [nows(s[1]) for s in top if s[0] == "stmt"]:
-        raise ExtractFail(where, "memoryCount is not module->memories.count")
-    inner = ifs[0][2][1]
-    # frame: header line and closing brace
-    plain = [nows(s[1]) for s in inner if s[0] == "stmt"]
-    hdr = [p for p in plain if p.startswith("fprintf(")]
-    if hdr != ['fprintf(file,"staticvoid%sInitMemories(%sInstance*i,%sInstance*parent){\\n",moduleName,moduleName,moduleName)']:
-        raise ExtractFail(where, "InitMemories header line changed: %r" % (hdr,))
-    if 'fputs("}\\n\\n",file)' not in plain:
+    nodes = cnorm.normalize(body, where)
+    if len(nodes) != 2 or nodes[0][0] != "if" or nodes[0][3] or nodes[1] != ("return", "true"):
+        raise ExtractFail(where, "wasmCWriteInitMemories is not one guarded definition")
+    g = nodes[0][1]
+    atoms = sorted(x for x, p in g[1]) if isinstance(g, tuple) and g[0] == "or" and all(p for _, p in g[1]) else None
+    if atoms != ["0<module->dataSegments.count", "0<module->memories.count"]:
+        raise ExtractFail(where, "outer guard of the InitMemories definition changed: %r" % (g,))
+    inner = list(nodes[0][2])
+    sb = None
+    for nd in inner:
+        m = re.fullmatch(r"(\$v\d+)=emptyStringBuilder", nd[1]) if nd[0] == "do" else None
+        if m:
+            sb = m.group(1)
+    if sb is None:
+        raise ExtractFail(where, "no string builder")
+    skip = ("%s=emptyStringBuilder" % sb, "MUST(stringBuilderInitialize(&%s))" % sb, "stringBuilderFree(&%s)" % sb)
+    inner = [nd for nd in inner if not (nd[0] == "do" and nd[1] in skip)]
+    if not inner or inner[0] != ("do", 'fprintf(file,"static void %sInitMemories(%sInstance* i, %sInstance* parent) {\\n",moduleName,moduleName,moduleName)'):
+        raise ExtractFail(where, "InitMemories header line changed")
+    if inner[-1] != ("do", 'fputs("}\\n\\n",file)'):
         raise ExtractFail(where, "closing brace of InitMemories not found")
-    for s in inner:
-        if s[0] not in ("stmt", "block"):
-            raise ExtractFail(where, "unexpected `%s` statement at the top of the InitMemories emitter" % s[0])
-    blocks = [s for s in inner if s[0] == "block"]
-    if len(blocks) != 2:
-        raise ExtractFail(where, "expected two blocks (memories, data segments) in the InitMemories emitter, found %d" % len(blocks))
-    # memory loop
-    mbody, mbefore, mafter = find_for(blocks[0][1], ";memoryIndex<memoryCount;memoryIndex++", where, "memory loop")
-    if [nows(s[1]) for s in mbefore if s[0] == "stmt"] != ["U32memoryIndex=0"] or mafter or len(mbefore) != 1:
-        raise ExtractFail(where, "memory loop does not start at index 0 / has neighbours")
-    mleaves = []
-    if flatten(mbody, [], where, {}, mleaves):
-        raise ExtractFail(where, "`break` in the memory loop")
-    # segment loop
-    sbody, sbefore, safter = find_for(blocks[1][1], ";dataSegmentIndex<dataSegmentCount;dataSegmentIndex++", where, "data segment loop")
-    want = ["constU32dataSegmentCount=module->dataSegments.count", "U32dataSegmentIndex=0", "U64byteOffset=0"]
-    if [nows(s[1]) for s in sbefore if s[0] == "stmt"] != want or safter or len(sbefore) != 3:
-        raise ExtractFail(where, "data segment loop: expected exactly the declarations %r before the loop" % (want,))
-    sleaves = []
-    if flatten(sbody, [], where, {}, sleaves):
-        raise ExtractFail(where, "`break` in the data segment loop")
+    mid = inner[1:-1]
+    # memory loop, [byteOffset = 0], data segment loop
+    if len(mid) != 3 or mid[0][0] != "loop" or mid[2][0] != "loop" or mid[1][0] != "do" or not re.fullmatch(r"\$v\d+=0", mid[1][1]):
+        raise ExtractFail(where, "expected: loop over the memories, byteOffset = 0, loop over the data segments")
+    bo = mid[1][1].split("=")[0]
+    if mid[0][1:4] != ("$i0", "0", "module->memories.count"):
+        raise ExtractFail(where, "memory loop does not run over ALL defined memories from index 0: %r" % (mid[0][1:4],))
+    if mid[2][1:4] != ("$i0", "0", "module->dataSegments.count"):
+        raise ExtractFail(where, "data segment loop does not run over ALL segments from index 0: %r" % (mid[2][1:4],))
+    mleaves, sleaves = [], []
+    n_flatten(mid[0][4], [], set(ALL_MODES), where, "mem", sb, None, mleaves)
+    n_flatten(mid[2][4], [], set(ALL_MODES), where, "seg", sb, bo, sleaves)
     sleaves = fuse_offset(sleaves, where)
-    for g, x in mleaves:
-        if any("seg" in a or "modeIn" in a for a in g) or x in (".advance", ".emit .segName", ".emit .byteOffset", ".emit .segMemUse",
-                                                               ".emit .offsetExpr", ".emit .segLen"):
-            raise ExtractFail(where, "memory loop refers to data segments")
-    for g, x in sleaves:
-        if any("memShared" in a for a in g) or x in (".emit .memRef", ".emit .memRefParent", ".emit .memMin", ".emit .memMax"):
-            raise ExtractFail(where, "data segment loop refers to the memory being allocated")
+    if [x for g, x in sleaves].count(".advance") != 1:
+        raise ExtractFail(where, "byteOffset is not advanced exactly once per segment")
     return mleaves, sleaves
 
 
+def _walk_nodes(nodes):
+    for nd in nodes:
+        yield nd
+        if nd[0] == "if":
+            for x in _walk_nodes(nd[2] + nd[3]):
+                yield x
+        elif nd[0] == "loop":
+            for x in _walk_nodes(nd[4]):
+                yield x
+        elif nd[0] == "while":
+            for x in _walk_nodes(nd[2]):
+                yield x
+
+
+def _mode_branches(nodes, var, where):
+    """if-chain / switch on `var` at the top of `nodes` -> {mode: node list}, the nodes after it"""
+    out = {}
+
+    def chain(nd, left):
+        c = nd[1]
+        ms = set()
+        for x, pos in (c[1] if isinstance(c, tuple) and c[0] == "or" else ((c, True),)):
+            m = re.fullmatch(re.escape(var) + r"==(\w+)", x) if isinstance(x, str) and pos else None
+            if not m or m.group(1) not in MODE_OF:
+                raise ExtractFail(where, "condition %r is not a test of the data segment mode" % (c,))
+            ms.add(MODE_OF[m.group(1)])
+        for mo in ms:
+            if mo in out:
+                raise ExtractFail(where, "mode `%s` handled twice" % mo)
+            out[mo] = nd[2]
+        rest = nd[3]
+        if len(rest) == 1 and rest[0][0] == "if" and not isinstance(rest[0][1], tuple) or (len(rest) == 1 and rest[0][0] == "if" and isinstance(rest[0][1], tuple) and rest[0][1][0] == "or"):
+            try:
+                chain(rest[0], left)
+                return
+            except ExtractFail:
+                pass
+        out["default"] = rest
+    k = 0
+    while k < len(nodes) and nodes[k][0] == "do" and re.fullmatch(r"\$v\d+=[\w$]+", nodes[k][1]):
+        k += 1              # initialisations of locals (loop counter, file handle)
+    if k >= len(nodes) or nodes[k][0] != "if":
+        raise ExtractFail(where, "no dispatch on the data segment mode")
+    chain(nodes[k], None)
+    return out, nodes[:k] + nodes[k + 1:]
+
+
 def blob_loop(src):
+    import cnorm
     body, line = function_body(src, "wasmCWriteDataSegmentsFromSection", C)
     where = "%s:%d" % (C, line)
-    flat = nows(body)
-    for mode, decl in (("wasmDataSegmentModeGNULD", 'fputs("externU8_binary_datasegments_start[];\\n\\n",file);fputs("staticU8*ds=_binary_datasegments_start;\\n",file);'),
-                       ("wasmDataSegmentModeSectcreate1", 'fputs("externU8data_segments_data__asm(\\"section$start$__DATA$__datasegments\\");\\n\\n",file);fputs("staticU8*ds=&data_segments_data;\\n",file);')):
-        if "case%s:{%sbreak;}" % (mode, decl) not in flat:
-            raise ExtractFail(where, "%s: `ds` is no longer declared as the start of the datasegments blob" % mode)
-    if 'staticchar*ds=getsectdata(\\"__DATA\\",\\"__datasegments\\",&len);\\n' not in flat or "casewasmDataSegmentModeSectcreate2:{" not in flat:
+    nodes = cnorm.normalize(body, where)
+    br, rest = _mode_branches(nodes, "mode", where)
+    decl = {"gnuld": ['fputs("extern U8 _binary_datasegments_start[];\\n\\n",file)', 'fputs("static U8* ds = _binary_datasegments_start;\\n",file)'],
+            "sectcreate1": ['fputs("extern U8 data_segments_data __asm(\\"section$start$__DATA$__datasegments\\");\\n\\n",file)', 'fputs("static U8* ds = &data_segments_data;\\n",file)']}
+    for mo, want in decl.items():
+        if [x[1] for x in br.get(mo, []) if x[0] == "do"] != want:
+            raise ExtractFail(where, "%s: `ds` is no longer declared as the start of the datasegments blob" % mo)
+    s2 = [x[1] for x in br.get("sectcreate2", []) if x[0] == "do"]
+    if not s2 or 'static char* ds = getsectdata(\\"__DATA\\", \\"__datasegments\\", &len);\\n' not in s2[-1]:
         raise ExtractFail(where, "sectcreate2: `ds` is no longer getsectdata(__DATA, __datasegments)")
-    if 'staticconstchar*constfilename="datasegments";' not in flat or 'segmentsFile=fopen(filename,"wb");' not in flat:
+    if "arrays" in br:
+        raise ExtractFail(where, "the blob writer handles the arrays mode")
+    # the file, the loop over all segments, exactly one fwrite of all bytes of the segment per pass
+    fvar = None
+    for nd in rest:
+        m = re.fullmatch(r'(\$v\d+)=fopen\("datasegments","wb"\)', nd[1]) if nd[0] == "do" else None
+        if m:
+            fvar = m.group(1)
+    if fvar is None:
         raise ExtractFail(where, "the blob is no longer written to the file `datasegments`")
-    top = parse_stmts(must_unwrap(body), where)
-    lbody, before, after = find_for(top, ";dataSegmentIndex<dataSegmentCount;dataSegmentIndex++", where, "blob loop")
-    pl = [nows(s[1]) for s in top if s[0] == "stmt"]
-    if "U32dataSegmentIndex=0" not in pl or "constU32dataSegmentCount=module->dataSegments.count" not in pl:
+    loops_ = [nd for nd in rest if nd[0] in ("loop", "while")]
+    if len(loops_) != 1 or loops_[0][0] != "loop" or loops_[0][1:4] != ("$i0", "0", "module->dataSegments.count"):
         raise ExtractFail(where, "blob loop does not run over all segments from index 0")
     leaves = []
-    for st in lbody:
-        t = nows(st[1]) if st[0] == "stmt" else None
-        if t in ("constWasmDataSegmentdataSegment=module->dataSegments.dataSegments[dataSegmentIndex]", "constsize_tlength=dataSegment.bytes.length"):
-            continue
-        if t == "constsize_twritten=fwrite(dataSegment.bytes.data,1,length,segmentsFile)":
+    seg = "module->dataSegments.dataSegments[$i0]"
+    for nd in loops_[0][4]:
+        if nd[0] == "do" and re.fullmatch(r"\$v\d+=fwrite\(%s\.bytes\.data,1,%s\.bytes\.length,%s\)" % (re.escape(seg), re.escape(seg), re.escape(fvar)), nd[1]):
             leaves.append(([], ".writeBytes"))
+            wv = nd[1].split("=")[0]
             continue
-        if st[0] == "if" and nows(st[1]) == "written!=length" and st[3] is None and nows(body[body.find("written != length"):]).find("abort();") > 0:
+        if nd[0] == "if" and leaves and nd[1] == "%s==%s.bytes.length" % (wv, seg) and not nd[2] and nd[3] and nd[3][-1] == ("do", "abort()"):
             continue
-        raise ExtractFail(where, "blob loop: statement outside the accepted shapes: %r" % (st[1][:60] if st[0] in ("stmt", "if") else st[0],))
+        raise ExtractFail(where, "blob loop: statement outside the accepted shapes: %r" % (nd[:2],))
     if len(leaves) != 1:
         raise ExtractFail(where, "blob loop does not write the segment bytes exactly once")
     return leaves
 
 
 def array_loop(src):
+    import cnorm
     body, line = function_body(src, "wasmCWriteDataSegments", C)
     where = "%s:%d" % (C, line)
-    top = parse_stmts(must_unwrap(body), where)
-    sw = [s for s in top if s[0] == "switch"]
-    if len(sw) != 1 or nows(sw[0][1]) != "mode":
-        raise ExtractFail(where, "wasmCWriteDataSegments: switch (mode) not found")
-    arr = [b for labels, b in sw[0][2] if labels == ["wasmDataSegmentModeArrays"]]
-    if len(arr) != 1:
+    nodes = cnorm.normalize(body, where)
+    br, rest = _mode_branches(nodes, "mode", where)
+    arr = br.get("arrays")
+    if arr is None:
         raise ExtractFail(where, "arrays case not found")
-    stmts = arr[0]
-    if stmts and stmts[0][0] == "block":
-        stmts = stmts[0][1] + stmts[1:]
-    lbody, before, after = find_for(stmts, ";dataSegmentIndex<dataSegmentCount;dataSegmentIndex++", where, "array loop")
-    if [nows(s[1]) for s in before if s[0] == "stmt"] != ["U32dataSegmentIndex=0"]:
-        raise ExtractFail(where, "array loop does not start at index 0")
-    flat = nows(body)
-    if "constU32dataSegmentCount=module->dataSegments.count;" not in flat:
-        raise ExtractFail(where, "array loop bound is not the number of data segments")
-
-    def walk(lst, depth):
-        for st in lst:
-            if st[0] == "stmt" and re.match(r"(continue|break|return|goto)\b", st[1]):
-                raise ExtractFail(where, "array loop: `%s` (a segment may be skipped)" % st[1])
-            if st[0] == "block":
-                walk(st[1], depth)
-            elif st[0] == "for":
-                walk(st[2][1] if st[2][0] == "block" else [st[2]], depth + 1)
-            elif st[0] == "if":
-                c = nows(st[1])
-                if c not in ("pretty", "byteCount>DATA_SEGMENT_CHUNK_LENGTH", "byteIndex>0", "byteIndex%DATA_SEGMENT_CHUNK_LENGTH==0", "value<10"):
-                    raise ExtractFail(where, "array loop: condition `%s`" % st[1].strip())
-                walk([st[2]], depth)
-                if st[3] is not None:
-                    walk([st[3]], depth)
-            elif st[0] == "switch":
-                raise ExtractFail(where, "array loop: nested switch")
-    walk(lbody, 0)
-    lflat = nows(body[body.find("case wasmDataSegmentModeArrays"):body.find("case wasmDataSegmentModeGNULD")])
-    for need in ("constsize_tbyteCount=dataSegment.bytes.length;", 'fputs("constU8",file);wasmCWriteFileDataSegmentName(file,dataSegmentIndex);',
-                 "U32byteIndex=0;for(;byteIndex<byteCount;byteIndex++){U8value=dataSegment.bytes.data[byteIndex];",
-                 'if(value<10){fprintf(file,"%u",value);}else{fprintf(file,"0x%x",value);}'):
-        if need not in lflat:
-            raise ExtractFail(where, "array loop: `%s` not found" % need)
+    if len(arr) != 1 or arr[0][0] != "loop" or arr[0][1:4] != ("$i1", "0", "module->dataSegments.count"):
+        raise ExtractFail(where, "array loop does not run over all data segments from index 0")
+    seg = "module->dataSegments.dataSegments[$i1]"
+    allowed = ("pretty", "DATA_SEGMENT_CHUNK_LENGTH<%s.bytes.length" % seg, "0<$i0", "$i0%DATA_SEGMENT_CHUNK_LENGTH", "%s.bytes.data[$i0]<10" % seg)
+    inner = None
+    for nd in _walk_nodes(arr[0][4]):
+        if nd[0] in ("continue", "break", "return", "while"):
+            raise ExtractFail(where, "array loop: `%s` (a segment or a byte may be skipped)" % nd[0])
+        if nd[0] == "if" and nd[1] not in allowed:
+            raise ExtractFail(where, "array loop: condition %r" % (nd[1],))
+        if nd[0] == "loop":
+            if inner is not None or nd[1:4] != ("$i0", "0", seg + ".bytes.length"):
+                raise ExtractFail(where, "array loop: the byte loop does not run over all bytes of the segment")
+            inner = nd
+    dos = [nd[1] for nd in arr[0][4] if nd[0] == "do"]
+    if dos[:2] != ['fputs("const U8 ",file)', "wasmCWriteFileDataSegmentName(file,$i1)"] or inner is None:
+        raise ExtractFail(where, "array loop: `const U8 d<k>[]` declaration / byte loop not found")
+    val = "%s.bytes.data[$i0]" % seg
+    want = ("if", val + "<10", [("do", 'fprintf(file,"%%u",%s)' % val)], [("do", 'fprintf(file,"0x%%x",%s)' % val)])
+    if want not in inner[4]:
+        raise ExtractFail(where, "array loop: every byte is no longer printed as %u / 0x%x")
     return [([], ".defineArray")]
 
 
